@@ -598,3 +598,46 @@ func (p *Program) ControlDeps(b *ssa.BasicBlock) []*ssa.If {
 func (pd *PostDom) PostDom(a, b *ssa.BasicBlock) bool {
 	return pd.sets[a.Index][b.Index]
 }
+
+// Loop is a natural loop: Header dominates every block of Body (Header included),
+// and Body holds the blocks from which a back edge into Header is reachable
+// without leaving through Header.
+type Loop struct {
+	Header *ssa.BasicBlock
+	Body   map[*ssa.BasicBlock]bool
+}
+
+// Loops returns the natural loops of fn (loops sharing a header are merged).
+func Loops(fn *ssa.Function) []*Loop {
+	byHead := map[*ssa.BasicBlock]*Loop{}
+	var order []*ssa.BasicBlock
+	for _, b := range fn.Blocks {
+		for _, s := range b.Succs {
+			if !s.Dominates(b) {
+				continue
+			}
+			// back edge b -> s
+			l := byHead[s]
+			if l == nil {
+				l = &Loop{Header: s, Body: map[*ssa.BasicBlock]bool{s: true}}
+				byHead[s] = l
+				order = append(order, s)
+			}
+			stack := []*ssa.BasicBlock{b}
+			for len(stack) > 0 {
+				c := stack[len(stack)-1]
+				stack = stack[:len(stack)-1]
+				if l.Body[c] {
+					continue
+				}
+				l.Body[c] = true
+				stack = append(stack, c.Preds...)
+			}
+		}
+	}
+	var out []*Loop
+	for _, h := range order {
+		out = append(out, byHead[h])
+	}
+	return out
+}
